@@ -42,9 +42,17 @@ def export():
 
 def name_of(n):
     ext = n["ext"]
-    base = "sig" if ext == "noext" else "sig." + ext
+    if n.get("dotted"):
+        base = "corpus.v2/utt.01" if ext != "noext" else "corpus.v2/utt_noext"
+    else:
+        base = "sig"
+    if ext != "noext":
+        base = base + "." + ext
     if n["table"]:
         base = "ark:" + base
+    d = os.path.dirname(base)
+    if d:
+        os.makedirs(d, exist_ok=True)
     return base
 
 
@@ -244,7 +252,7 @@ def run(tier, seed):
     run.exhaustive = True
     run.sample(rows[0])
     run.sample(rows[len(rows) // 2])
-    run.extra["rule"] = "every row of the exported decision table (896) replayed; kaldi table/stream readers are dispatch-only"
+    run.extra["rule"] = "every row of the exported decision table replayed; kaldi table/stream readers are dispatch-only"
     run.assumptions += ["container fidelity itself belongs to the container library; the lossy ogg container is not compared",
                         "scipy is absent: .wav goes through the standard wave module"]
     return run.finish()
